@@ -358,13 +358,15 @@ class Spec:
                 new = FIELDS[target][fld][1] if cur == FIELDS[target][fld][0] else FIELDS[target][fld][0]
                 set_field(f, target, fld, new)
                 s.val[target][fld] = new
-                for o in ORDERS:
-                    if m_key(o, f, target) != old_keys[o]:
-                        if o == s.order and target in pre_shown:
-                            s.oos.discard((target, o))
-                        else:
-                            s.oos.add((target, o))
+                changed_keys = [o for o in ORDERS if m_key(o, f, target) != old_keys[o]]
                 v.update([f])
+                still_shown = target in [x.id for x in v]
+                for o in changed_keys:
+                    # "in sight" = the flow is shown under this very order before and after the update
+                    if o == s.order and target in pre_shown and still_shown:
+                        s.oos.discard((target, o))
+                    else:
+                        s.oos.add((target, o))
             elif op == "remove":
                 v.remove([s.flows[target]])
                 s.store.remove(target)
